@@ -8,6 +8,9 @@ stand-alone gas correlations at the Sutton point of the supplied composition.
 
 from __future__ import annotations
 
+import json
+import warnings
+
 import numpy as np
 
 from vf import instrument, workloads as wl
@@ -71,6 +74,13 @@ def generate(ck):
         comp = wl.gas_composition(rng)
         descs.append({"kind": "sutton", "comp": comp, "extra": [wl.f(rng.uniform(2, 60)), wl.f(rng.uniform(10, 900)), wl.f(rng.uniform(30, 1500))], "bad_type": str(rng.choice(["oil", "", "Dry Gas", "wet", "gas"]))})
     descs.append({"kind": "python-O"})
+    # the same questions asked in interpreters started with other hash seeds
+    comps = []
+    for k in range(4):
+        c = wl.gas_composition(np.random.default_rng(500 + k + 10 * int(ck.seed)))
+        c.update({"N2": [0.07, 0.01, 0.03, 0.0][k], "H2S": [0.02, 0.05, 0.0, 0.04][k], "CO2": [0.04, 0.08, 0.06, 0.01][k], "Gas Specific Gravity": max(c["Gas Specific Gravity"], 0.75)})
+        comps.append(c)
+    descs.append({"kind": "hash-seeds", "comps": comps, "oil": [wl.oil_params(np.random.default_rng(900 + k)) for k in range(3)], "seeds": [1, 2, 3, 5, 8, 13] if ck.tier == "quick" else list(range(1, 25))})
     return descs
 
 
@@ -107,6 +117,48 @@ def run_case(ck, desc):
             else:
                 ck.count(f"sutton.rejections.python-O.{o[7:]}")
         return True, {"snippets": len(snips)}
+    if kind == "hash-seeds":
+        code = (
+            "from bluebonnet.fluids import Fluid, build_pvt_gas, gas\n"
+            "result = []\n"
+            "p = np.array([50.0, 900.0, 2500.0, 7000.0])\n"
+            "for c in payload['comps']:\n"
+            "    nh = gas.make_nonhydrocarbon_properties(c['N2'], c['H2S'], c['CO2'])\n"
+            "    row = []\n"
+            "    for kind in ('dry gas', 'wet gas', 'oil', 'Dry Gas', ''):\n"
+            "        try:\n"
+            "            row.append([float(v) for v in gas.pseudocritical_point_Sutton(c['Gas Specific Gravity'], nh, kind)])\n"
+            "        except Exception as e:\n"
+            "            row.append('raised:' + type(e).__name__)\n"
+            "    c2 = dict(c); dry = c2.pop('dryness')\n"
+            "    t = build_pvt_gas(c2, dry, maximum_pressure=200.0)\n"
+            "    row.append([float(v) for col in ('pseudopressure', 'z-factor', 'viscosity') for v in t[col]])\n"
+            "    result.append(row)\n"
+            "for T, api, gg, gor in payload['oil']:\n"
+            "    fl = Fluid(T, api, gg, gor, 8.0, 0.3)\n"
+            "    result.append([[float(v) for v in np.atleast_1d(f(p))] for f in (fl.water_FVF, fl.water_viscosity, fl.oil_FVF, fl.oil_viscosity)]\n"
+            "                  + [[float(v) for v in np.atleast_1d(f(p, -60.0, 660.0))] for f in (fl.gas_FVF, fl.gas_viscosity)] + [[float(fl.pressure_bubblepoint())]])\n"
+        )
+        import io
+        import contextlib
+
+        g_ = {"np": np, "payload": {"comps": desc["comps"], "oil": desc["oil"]}}
+        with warnings.catch_warnings(), contextlib.redirect_stdout(io.StringIO()):
+            warnings.simplefilter("ignore")
+            exec(code, g_)  # noqa: S102  (the very same source, run here)
+        here = json.loads(json.dumps(g_["result"]))
+        got = instrument.values_under_hash_seeds(code, {"comps": desc["comps"], "oil": desc["oil"]}, desc["seeds"])
+        for sd, res in got.items():
+            if isinstance(res, str):
+                ck.inconclusive_because(f"child interpreter with PYTHONHASHSEED={sd}: {res[:200]}")
+                continue
+            ck.count("answers_compared_under_another_hash_seed", len(res))
+            if res != here:
+                k_ = next(i for i, (a, b) in enumerate(zip(res, here)) if a != b)
+                ck.violation("same-answers-in-every-interpreter", {"PYTHONHASHSEED": sd, "item": k_, "what": "pseudocritical points / rejections" if k_ < len(desc["comps"]) else "facade values", "there": res[k_], "here": here[k_]}, desc)
+        if not any(isinstance(r_, list) for r_ in here[0]) or not any(isinstance(r_, str) for r_ in here[0]):
+            ck.inconclusive_because("hash-seed case: no accepted or no rejected fluid type among the probes")
+        return True, {"children": len(got)}
     if kind == "facade":
         T, api, gg, gor = desc["oil"]
         sal = desc["salinity"]
